@@ -80,6 +80,13 @@ class Injector:
         wrap(h5py.Group, "require_group")
         wrap(h5py.AttributeManager, "__setitem__")
         wrap(h5py.Group, "__delitem__")
+        # every other way h5py has of writing into a file
+        wrap(h5py.Dataset, "__setitem__")
+        wrap(h5py.Dataset, "resize")
+        wrap(h5py.Dataset, "write_direct")
+        wrap(h5py.Group, "__setitem__")
+        wrap(h5py.Group, "copy")
+        wrap(h5py.Group, "move")
         cls.installed = self
         return self
 
@@ -323,6 +330,69 @@ def project(path, ids, hash2fit):
     return st
 
 
+_SIB = {}
+
+
+def sibling_container(tmp):
+    """a second container (built once per worker process) that holds the
+    same curves with OTHER fits; it sits next to the container under test so
+    that the directory loaders see both"""
+    from nanite.rate import io as rio
+    import os
+    key = os.getpid()
+    if key not in _SIB:
+        d = pathlib.Path(tempfile.mkdtemp(prefix="c16sib_", dir=tmp))
+        f = d / "sibling.h5"
+        with warnings.catch_warnings():
+            warnings.simplefilter("ignore")
+            for cid, ftag in (("B1", "f2"), ("B2", "f3"), ("A0", "f1")):
+                rio.save_hdf5(f, fitted(cid, ftag), 5, "carol", "sibling")
+        _SIB[key] = f
+    return _SIB[key]
+
+
+def dir_load_ok(dirpath, ids, hash2fit):
+    """every rating that the DIRECTORY loaders return shows the columns,
+    settings and features of the fit stored with it (two containers may
+    hold the same curve with different fits)"""
+    from nanite.rate import io as rio
+    from nanite.rate.rater import IndentationRater
+    try:
+        with warnings.catch_warnings():
+            warnings.simplefilter("ignore")
+            ratings = rio.load(dirpath)
+            rm = rio.RateManager(dirpath).ratings
+    except BaseException as exc:
+        if isinstance(exc, (KeyboardInterrupt, SystemExit)):
+            raise
+        return True          # (unreadable files are judged elsewhere)
+    for rr in (ratings, rm):
+        for r in rr:
+            fp = r["fit properties"]
+            hit = [(c, hash2fit.get((idd(c), fp.get("hash")))) for c in ids
+                   if CURVES[c][1] == r["enum"]
+                   and hash2fit.get((idd(c), fp.get("hash")))]
+            if not hit:
+                continue
+            cc, ftag = hit[0]
+            ref = reference(cc, ftag)
+            ds = r["data_set"]
+            for c, dg in ref["cols"].items():
+                if c not in ds or vcommon.digest(np.asarray(ds[c])) != dg:
+                    return False
+            try:
+                with warnings.catch_warnings():
+                    warnings.simplefilter("ignore")
+                    feats = IndentationRater.compute_features(ds)
+                if vcommon.digest(np.asarray(feats, float)) != ref["feats"]:
+                    return False
+            except BaseException as exc:
+                if isinstance(exc, (KeyboardInterrupt, SystemExit)):
+                    raise
+                return False
+    return True
+
+
 def record_steps(tmp):
     """step lists of real successful saves"""
     from nanite.rate import io as rio
@@ -368,6 +438,11 @@ def run_history(job):
     path = tmpd / "rate.h5"
     ids = sorted(CURVES)
     h2f = {(k[0], k[1]): v for k, v in hash2fit}
+    try:
+        shutil.copy2(sibling_container(tmp), tmpd / "sibling.h5")
+    except BaseException as exc:
+        if isinstance(exc, (KeyboardInterrupt, SystemExit)):
+            raise
     trace = {"init": project(path, ids, h2f), "events": [],
              "hist": [list(h) for h in hist]}
     for step in hist:
@@ -393,6 +468,7 @@ def run_history(job):
             how = ""
         inj.count, inj.fail_at, inj.log = 0, int(crash), []
         ev = {"id": idd(cid), "hash": file_hash(cid), "fit": ftag,
+              "dirload_ok": True,
               "usr": utag, "crash": int(crash), "out": "ok", "exc": "",
               "touch": how or "none", "same_stored": bool(same_stored)}
         try:
@@ -418,6 +494,8 @@ def run_history(job):
             if k != ev["id"])
         ev["file_bytes_same"] = post["dumps"] == pre["dumps"] and \
             post["raw"] == pre["raw"]
+        if post["load_ok"] and pathlib.Path(path).exists():
+            ev["dirload_ok"] = dir_load_ok(tmpd, ids, h2f)
         ev["fitpart_same"] = bool(
             pre["fitparts"].get(ev["id"]) is None
             or post["fitparts"].get(ev["id"]) == pre["fitparts"][ev["id"]])
